@@ -42,6 +42,7 @@ type mgrCase struct {
 	Closers   []closerSpec
 	Grace     string // none | generous | short
 	ParentAt  int    // x100ms, 0 = parent never cancelled
+	ParentDL  bool   // the parent context ends by its DEADLINE at ParentAt (context.DeadlineExceeded) instead of being cancelled
 	Closes    []int  // Close() call times: -1 = before Run, else x100ms after Run started
 	LateAddAt int    // x100ms+50 after Run started: Add(runner) (0 = none)
 	SecondRun bool
@@ -177,6 +178,9 @@ func runMgr(t *testing.T, c mgrCase) (nontrivial bool, classes []string, err err
 			runners = append(runners, mkRunner(i, s))
 		}
 		parent, cancelParent := context.WithCancel(context.Background())
+		if c.ParentDL && c.ParentAt > 0 {
+			parent, cancelParent = context.WithDeadline(context.Background(), time.Now().Add(time.Duration(c.ParentAt)*100*ms))
+		}
 		defer cancelParent()
 
 		// ---- expected times
@@ -239,7 +243,7 @@ func runMgr(t *testing.T, c mgrCase) (nontrivial bool, classes []string, err err
 			wg.Add(1)
 			errs.Go(func() { defer wg.Done(); fn() })
 		}
-		if c.ParentAt > 0 {
+		if c.ParentAt > 0 && !c.ParentDL {
 			spawn(func() { time.Sleep(time.Duration(c.ParentAt) * 100 * ms); cancelParent() })
 		}
 
@@ -640,6 +644,14 @@ func genCase(rt *rapid.T) mgrCase {
 	if !terminates {
 		c.ParentAt = slots[5]
 	}
+	if c.ParentAt > 0 && rapid.IntRange(0, 2).Draw(rt, "parentDeadline") == 0 {
+		c.ParentDL = true
+		for i := range c.Runners {
+			if c.Runners[i].Result == "ctxerr" {
+				c.Runners[i].Result = "nil" // (what ctx.Err() is then depends on which of the two cancellations came first)
+			}
+		}
+	}
 	return c
 }
 
@@ -650,6 +662,9 @@ func TestManagers(t *testing.T) {
 		nt, cls, err := runMgr(t, c)
 		if err != nil {
 			rt.Fatalf("C12 runner/closer manager violated: %v\ncase: %s", err, c)
+		}
+		if c.ParentDL {
+			cls = append(cls, "parent-context-ends-by-deadline")
 		}
 		if c.AddBefore > 0 {
 			cls = append(cls, "runners.some-via-Add")
